@@ -882,6 +882,7 @@ class Engine:
         except Exception:
             pass
         self.timeout_ms = timeout_ms
+        self.branch_timeout_ms = min(timeout_ms, 3000)
         self.max_paths = max_paths
         self.work = [[]]
         self.prefix = []
@@ -923,6 +924,13 @@ class Engine:
         self.stats["queries"][s] = self.stats["queries"].get(s, 0) + 1
         return s
 
+    def _check_quick(self, *assumptions):
+        self.solver.set("timeout", self.branch_timeout_ms)
+        try:
+            return self._check(*assumptions)
+        finally:
+            self.solver.set("timeout", self.timeout_ms)
+
     def decide(self, cond):
         c = z3.simplify(cond)
         if z3.is_true(c):
@@ -933,20 +941,20 @@ class Engine:
         if self.pos < len(self.prefix):
             d = self.prefix[self.pos]
         else:
-            rt = self._check(c)
-            rf = self._check(z3.Not(c))
-            can_t = rt != "unsat"
-            can_f = rf != "unsat"
-            if can_t and can_f:
-                self.work.append(self.log + [False])
-                self.stats["forks"] += 1
+            # invariant: the current path is feasible, so if one side is refuted the other one holds
+            rf = self._check_quick(z3.Not(c))
+            if rf == "unsat":
                 d = True
-            elif can_t:
-                d = True
-            elif can_f:
-                d = False
             else:
-                raise PathAbort("infeasible path")
+                rt = self._check_quick(c)
+                if rt == "unsat":
+                    d = False
+                else:
+                    # both sides possible (an 'unknown' is explored too: over-approximation, sound for proofs;
+                    # counterexamples are replayed concretely before they are believed)
+                    self.work.append(self.log + [False])
+                    self.stats["forks"] += 1
+                    d = True
         self.pos += 1
         self.log.append(d)
         self.solver.add(c if d else z3.Not(c))
